@@ -115,7 +115,8 @@ def resolve_join(function_body, params: Dict, mappings: Dict[str, Dict], conditi
     delimiter, list_values = function_body
     resolved_delimiter = resolve(delimiter, params, mappings, conditions)
     resolved_list = resolve(list_values, params, mappings, conditions)
-    return resolved_delimiter.join(str(e) for e in resolved_list)
+    # Values that were not written in the template (read from a mapping) are joined as the text they render to
+    return resolved_delimiter.join(str(_as_text(e)) for e in resolved_list)
 
 
 def resolve_find_in_map(function_body, params: Dict, mappings: Dict[str, Dict], conditions: Dict[str, bool]):
